@@ -6,6 +6,7 @@
 #include <tins/pktap.h>
 #include <tins/ppi.h>
 #include <tins/loopback.h>
+#include <tins/detail/pdu_helpers.h>
 #include "replay_util.h"
 #include <random>
 #include <typeinfo>
@@ -17,6 +18,13 @@ static void rsn(const uint8_t* p, uint32_t n) { RSNInformation r(p, n); (void)r.
 static void dns(const uint8_t* p, uint32_t n) { DNS d(p, n); d.queries(); d.answers(); d.authority(); d.additional(); }
 static void icmp_ext(const uint8_t* p, uint32_t n) { ICMPExtension e(p, n); (void)e.size(); }
 static void icmp_exts(const uint8_t* p, uint32_t n) { if (ICMPExtensionsStructure::validate_extensions(p, n)) { ICMPExtensionsStructure s(p, n); (void)s.size(); } }
+static void dot3_discriminator(const uint8_t* p, uint32_t n) {
+    volatile bool b = Internals::is_dot3(p, n); (void)b;           // the real inline function on the exact-size block
+    std::vector<uint8_t> v(8 + n); v[2] = 8; v[4] = 1;             // the same bytes as the payload of a PPI header with DLT_EN10MB
+    if (n) memcpy(&v[8], p, n);
+    ExactBuf w(v);
+    try { PPI x(w.p, (uint32_t)v.size()); } catch (const exception_base&) {}
+}
 typedef void (*fn)(const uint8_t*, uint32_t);
 int main(int argc, char** argv) {
     Replay r(argv[1]);
@@ -28,7 +36,7 @@ int main(int argc, char** argv) {
         {"dhcpv6.", build<DHCPv6>}, {"bootp.", build<BootP>}, {"dhcp.", build<DHCP>}, {"pppoe.", build<PPPoE>}, {"ipsecah.", build<IPSecAH>},
         {"ipsecesp.", build<IPSecESP>}, {"rtp.", build<RTP>}, {"ppi.", build<PPI>}, {"rc4eapol.", build<RC4EAPOL>}, {"rsneapol.", build<RSNEAPOL>},
         {"eapol.", from_bytes_eapol}, {"rsn_information.", rsn}, {"icmp_extension.", icmp_ext}, {"icmp_extensions", icmp_exts}, {"icmp.", build<ICMP>},
-        {"icmpv6.", build<ICMPv6>}, {"llc.", build<LLC>}, {"radiotap", build<RadioTap>}, {"dot11", from_bytes_dot11}, {"dns.", dns},
+        {"icmpv6.", build<ICMPv6>}, {"llc.", build<LLC>}, {"radiotap", build<RadioTap>}, {"dot11", from_bytes_dot11}, {"dns.", dns}, {"internals.is_dot3", dot3_discriminator},
     };
     fn f = 0;
     for (auto& e : table) if (u.find(e.prefix) == 0) { f = e.f; break; }
